@@ -4,19 +4,21 @@ import Proofs.Resolve
     (`CoSt.pages`, `CoSt.net`). This file: the page query `get_webentity_pages_iter`.
 
     * §0 the pointer graph of a represented tree (`cf_edges`): a block has at most one referrer, in one slot.
-    * §1 `cf_PagesInv`, a local invariant independent of `PagesOk`: the blocks held by the traversal and the
-      blocks already expanded are DISTINCT blocks of the tree (ghost set `V`), closed under "referred to by an
-      expanded block" up to the prefix nodes; stable under the sections of all other generators (`.mono`);
-      `cf_pagesResume_fuel`: with it a section never runs out of `trie.size + prefixes.length + 2`
-      iterations, and re-establishes it. It holds initially iff the prefixes are pairwise not prefixes of one
-      another (`cf_Apart`).
-    * FINDING: without that hypothesis the model's constant is too small: `cf_pages_fuel_insufficient_dup`,
-      `cf_pages_fuel_insufficient_nested` (kernel-checked witnesses; Python has no fuel — the atomic request of
-      the model answers `[]` there). §1' : `(trie.size + 1) * (prefixes.length + 1)` suffices for arbitrary
-      prefixes (`cf_pagesResume_fuel_general`).
+    * §1 the ghost invariant `cf_PI`: the blocks held by the traversal and the blocks already expanded are DISTINCT
+      blocks of the tree (ghost set `V`), closed under "referred to by an expanded block" up to the prefix nodes;
+      stable under the sections of all other generators (`.mono`).
+      HISTORY: the model used to grant a section `cf_oldFuel = trie.size + prefixes.length + 2` iterations. With the
+      invariant `cf_PagesInvA` (ghosts kept across prefixes; holds initially iff the prefixes are pairwise not prefixes
+      of one another, `cf_Apart`) that constant suffices (`cf_old_pagesResume_fuel`); without the hypothesis it does
+      NOT: `cf_old_pages_fuel_insufficient_dup`, `cf_old_pages_fuel_insufficient_nested` (kernel-checked witnesses;
+      Python has no fuel — the atomic request of the model answers `[]` there). This is why the constant was changed.
+    * §1' the constant of the model now, `(trie.size + 1) * (prefixes.length + 1)`, suffices for ARBITRARY prefixes
+      (equal, nested, …): local invariant `cf_PagesInv` (ghosts reset when a prefix is opened; holds initially for
+      every well-formed prefix list), `cf_pagesResume_fuel_general`, `cf_pagesResume_fuel`.
     * §3 `cf_sched_never` (generic induction over schedules for read-only machines),
       `cf_C16_pages_query_failures`, `cf_C16_pages_query_no_fuel`: for every schedule, whatever the other
-      generators are, the page query never fails except with `TraphException` (prefix not in the index).
+      generators are, for every (well-formed) prefix list, the page query never fails except with `TraphException`
+      (prefix not in the index).
     The network query is in `Proofs/CoFuelNet.lean`, "drained = atomic" in `Proofs/CoFuelDrain.lean`. -/
 namespace Traph
 open State Layout
@@ -393,22 +395,22 @@ structure cf_PInv (s : State) (t : T) (p : PagesSt) (V : List Nat) (opened : Lis
   pi     : cf_PI s t p.prefixes p.start (cf_front p) V opened cur
   pendle : ∀ b lru cu lvl c, p.pend = some (b, lru, cu, lvl, c) → CellLe c (s.cell b)
 
-/-- **the strengthened local invariant of the page query** (independent of `PagesOk`): the blocks the
-    traversal still holds and the blocks it has expanded are distinct blocks of the tree, closed under
-    "is referred to by an expanded block" up to the prefix nodes; the prefixes (opened and to come) are
+/-- the local invariant of the page query under which the OLD constant sufficed (independent of `PagesOk`): the
+    blocks the traversal still holds and the blocks it has expanded SINCE THE START are distinct blocks of the tree,
+    closed under "is referred to by an expanded block" up to the prefix nodes; the prefixes (opened and to come) are
     pairwise not prefixes of one another -/
-def cf_PagesInv (s : State) (t : T) (p : PagesSt) : Prop := ∃ V opened cur, cf_PInv s t p V opened cur
+def cf_PagesInvA (s : State) (t : T) (p : PagesSt) : Prop := ∃ V opened cur, cf_PInv s t p V opened cur
 
-theorem cf_PagesInv.mono {s s' : State} {t t' : T} {p : PagesSt} (h : Shape s t) (x : Ext s t s' t') (le : s ⊑ s')
-    (hp : cf_PagesInv s t p) : cf_PagesInv s' t' p := by
+theorem cf_PagesInvA.mono {s s' : State} {t t' : T} {p : PagesSt} (h : Shape s t) (x : Ext s t s' t') (le : s ⊑ s')
+    (hp : cf_PagesInvA s t p) : cf_PagesInvA s' t' p := by
   obtain ⟨V, opened, cur, hpi, hle⟩ := hp
   refine ⟨V, opened, cur, hpi.mono h x le, fun b lru cu lvl c e => ?_⟩
   have hb : b ∈ cf_front p := by simp [cf_front, cf_pendBlock, e]
   obtain ⟨q, h1, _⟩ := hpi.live b hb
   exact (hle b lru cu lvl c e).trans (le.cell_le b (entry_lt h h1))
 
-theorem cf_PagesInv.init (s : State) (t : T) (prefixes : List Bytes) (hwf : ∀ pf ∈ prefixes, lruIter pf ≠ [])
-    (hap : (prefixes.map lruIter).Pairwise cf_Apart) : cf_PagesInv s t { prefixes := prefixes } :=
+theorem cf_PagesInvA.init (s : State) (t : T) (prefixes : List Bytes) (hwf : ∀ pf ∈ prefixes, lruIter pf ≠ [])
+    (hap : (prefixes.map lruIter).Pairwise cf_Apart) : cf_PagesInvA s t { prefixes := prefixes } :=
   ⟨[], [], [], ⟨by simp [cf_front, cf_pendBlock], by simpa using hap, hwf, fun b hb => by simp [cf_front, cf_pendBlock] at hb,
     fun b hb => by simp [cf_front, cf_pendBlock] at hb⟩, fun _ _ _ _ _ e => by simp at e⟩
 
@@ -445,7 +447,7 @@ theorem cf_pages_aux : ∀ (fuel : Nat) (s : State) (t : T) (prefixes : List Byt
     s.trie.size + prefixes.length + 1 ≤ fuel + V.length →
     (pagesResume fuel s ⟨prefixes, start, stack, none, pages⟩).2 ≠ .failed (.other "fuel") ∧
     ((pagesResume fuel s ⟨prefixes, start, stack, none, pages⟩).2 = .yielded →
-      cf_PagesInv s t (pagesResume fuel s ⟨prefixes, start, stack, none, pages⟩).1)
+      cf_PagesInvA s t (pagesResume fuel s ⟨prefixes, start, stack, none, pages⟩).1)
   | 0, s, t, prefixes, start, stack, pages, V, opened, cur, h, hp, hf => by
     have := hp.length_le h
     omega
@@ -484,37 +486,42 @@ theorem cf_pages_aux : ∀ (fuel : Nat) (s : State) (t : T) (prefixes : List Byt
         simp only [List.length_cons]
         omega
 
-/-- **(1a) fuel sufficiency for one section of the page query**, in any state of the machine satisfying the
-    strengthened local invariant (which holds initially when the prefixes are pairwise not prefixes of one
-    another, is stable under the sections of all other generators, and is re-established here) -/
-theorem cf_pagesResume_fuel {s : State} {t : T} {p : PagesSt} (h : Shape s t) (hp : cf_PagesInv s t p) :
-    (pagesResume (s.trie.size + p.prefixes.length + 2) s p).2 ≠ .failed (.other "fuel") ∧
-    ((pagesResume (s.trie.size + p.prefixes.length + 2) s p).2 = .yielded →
-      cf_PagesInv s t (pagesResume (s.trie.size + p.prefixes.length + 2) s p).1) := by
+/-- the constant `CoSt.resume` granted a section of the page query BEFORE the change of the model -/
+def cf_oldFuel (s : State) (p : PagesSt) : Nat := s.trie.size + p.prefixes.length + 2
+
+/-- (history) the old constant was sufficient for one section of the page query in any state of the machine
+    satisfying `cf_PagesInvA` (which holds initially when the prefixes are pairwise not prefixes of one another, is
+    stable under the sections of all other generators, and is re-established here) — and only then:
+    `cf_old_pages_fuel_insufficient_*` -/
+theorem cf_old_pagesResume_fuel {s : State} {t : T} {p : PagesSt} (h : Shape s t) (hp : cf_PagesInvA s t p) :
+    (pagesResume (cf_oldFuel s p) s p).2 ≠ .failed (.other "fuel") ∧
+    ((pagesResume (cf_oldFuel s p) s p).2 = .yielded →
+      cf_PagesInvA s t (pagesResume (cf_oldFuel s p) s p).1) := by
   obtain ⟨V, opened, cur, hinv⟩ := hp
   obtain ⟨V', hV, hpi⟩ := hinv.norm h
-  rw [show s.trie.size + p.prefixes.length + 2 = (s.trie.size + p.prefixes.length + 1) + 1 from rfl, pagesResume_norm]
+  rw [show cf_oldFuel s p = (s.trie.size + p.prefixes.length + 1) + 1 from rfl, pagesResume_norm]
   exact cf_pages_aux _ s t p.prefixes p.start p.pending p.pages V' opened cur h hpi (by omega)
 
-/-! ## 1'. the bound that WOULD suffice for arbitrary prefixes: `(trie.size + 1) * (prefixes.length + 1)` -/
+/-! ## 1'. the constant of the model: `(trie.size + 1) * (prefixes.length + 1)` suffices for arbitrary prefixes -/
 
-/-- the local invariant without any hypothesis on the prefixes (only well-formedness): the blocks popped under
-    the CURRENT prefix are popped once (the ghosts are reset when a prefix is opened) -/
-def cf_PagesInvG (s : State) (t : T) (p : PagesSt) : Prop :=
+/-- **the local invariant of the page query** (independent of `PagesOk`), without any hypothesis on the prefixes
+    (only well-formedness): the blocks the traversal still holds and the blocks it has expanded under the CURRENT
+    prefix are distinct blocks of the tree — popped once (the ghosts are reset when a prefix is opened) -/
+def cf_PagesInv (s : State) (t : T) (p : PagesSt) : Prop :=
   (∀ pf ∈ p.prefixes, lruIter pf ≠ []) ∧
   (∀ b lru cu lvl c, p.pend = some (b, lru, cu, lvl, c) → CellLe c (s.cell b)) ∧
   ∃ V cur, cf_PI s t [] p.start (cf_front p) V [cur] cur
 
-theorem cf_PagesInvG.mono {s s' : State} {t t' : T} {p : PagesSt} (h : Shape s t) (x : Ext s t s' t') (le : s ⊑ s')
-    (hp : cf_PagesInvG s t p) : cf_PagesInvG s' t' p := by
+theorem cf_PagesInv.mono {s s' : State} {t t' : T} {p : PagesSt} (h : Shape s t) (x : Ext s t s' t') (le : s ⊑ s')
+    (hp : cf_PagesInv s t p) : cf_PagesInv s' t' p := by
   obtain ⟨hwf, hle, V, cur, hpi⟩ := hp
   refine ⟨hwf, fun b lru cu lvl c e => ?_, V, cur, hpi.mono h x le⟩
   have hb : b ∈ cf_front p := by simp [cf_front, cf_pendBlock, e]
   obtain ⟨q, h1, _⟩ := hpi.live b hb
   exact (hle b lru cu lvl c e).trans (le.cell_le b (entry_lt h h1))
 
-theorem cf_PagesInvG.init (s : State) (t : T) (prefixes : List Bytes) (hwf : ∀ pf ∈ prefixes, lruIter pf ≠ []) :
-    cf_PagesInvG s t { prefixes := prefixes } :=
+theorem cf_PagesInv.init (s : State) (t : T) (prefixes : List Bytes) (hwf : ∀ pf ∈ prefixes, lruIter pf ≠ []) :
+    cf_PagesInv s t { prefixes := prefixes } :=
   ⟨hwf, fun _ _ _ _ _ e => by simp at e, [], [], by simp [cf_front, cf_pendBlock], by simp, fun _ h => by simp at h,
     fun b hb => by simp [cf_front, cf_pendBlock] at hb, fun b hb => by simp [cf_front, cf_pendBlock] at hb⟩
 
@@ -524,7 +531,7 @@ theorem cf_pages_aux_gen : ∀ (fuel : Nat) (s : State) (t : T) (prefixes : List
     (s.trie.size + 1) * prefixes.length + s.trie.size + 1 ≤ fuel + V.length →
     (pagesResume fuel s ⟨prefixes, start, stack, none, pages⟩).2 ≠ .failed (.other "fuel") ∧
     ((pagesResume fuel s ⟨prefixes, start, stack, none, pages⟩).2 = .yielded →
-      cf_PagesInvG s t (pagesResume fuel s ⟨prefixes, start, stack, none, pages⟩).1)
+      cf_PagesInv s t (pagesResume fuel s ⟨prefixes, start, stack, none, pages⟩).1)
   | 0, s, t, prefixes, start, stack, pages, V, cur, h, hwf, hp, hf => by
     have := hp.length_le h
     omega
@@ -573,11 +580,11 @@ theorem cf_pages_aux_gen : ∀ (fuel : Nat) (s : State) (t : T) (prefixes : List
         omega
 
 /-- **the fuel that suffices for one section of the page query whatever the prefixes** (equal, nested, …):
-    `(trie.size + 1) * (prefixes.length + 1)`, recomputed from the current index like the model's constant -/
-theorem cf_pagesResume_fuel_general {s : State} {t : T} {p : PagesSt} (h : Shape s t) (hp : cf_PagesInvG s t p)
+    every `F ≥ (trie.size + 1) * (prefixes.length + 1)`, recomputed from the current index -/
+theorem cf_pagesResume_fuel_general {s : State} {t : T} {p : PagesSt} (h : Shape s t) (hp : cf_PagesInv s t p)
     (F : Nat) (hF : (s.trie.size + 1) * (p.prefixes.length + 1) ≤ F) :
     (pagesResume F s p).2 ≠ .failed (.other "fuel") ∧
-    ((pagesResume F s p).2 = .yielded → cf_PagesInvG s t (pagesResume F s p).1) := by
+    ((pagesResume F s p).2 = .yielded → cf_PagesInv s t (pagesResume F s p).1) := by
   obtain ⟨hwf, hle, V, cur, hpi⟩ := hp
   obtain ⟨V', hV, hpi'⟩ := hpi.norm h hle
   obtain ⟨F', rfl⟩ : ∃ F', F = F' + 1 := ⟨F - 1, by
@@ -588,6 +595,16 @@ theorem cf_pagesResume_fuel_general {s : State} {t : T} {p : PagesSt} (h : Shape
   · exact hpi'
   · simp only [Nat.mul_add, Nat.mul_one] at hF
     omega
+
+/-- **(1a) fuel sufficiency for one section of the page query**, at the constant `CoSt.resume` grants, in any
+    state of the machine satisfying the local invariant (which holds initially for EVERY well-formed prefix list —
+    equal or nested prefixes included —, is stable under the sections of all other generators, and is re-established
+    here) -/
+theorem cf_pagesResume_fuel {s : State} {t : T} {p : PagesSt} (h : Shape s t) (hp : cf_PagesInv s t p) :
+    (pagesResume ((s.trie.size + 1) * (p.prefixes.length + 1)) s p).2 ≠ .failed (.other "fuel") ∧
+    ((pagesResume ((s.trie.size + 1) * (p.prefixes.length + 1)) s p).2 = .yielded →
+      cf_PagesInv s t (pagesResume ((s.trie.size + 1) * (p.prefixes.length + 1)) s p).1) :=
+  cf_pagesResume_fuel_general h hp _ (Nat.le_refl _)
 
 /-! ## 3. every schedule: the generic induction -/
 
@@ -669,7 +686,7 @@ theorem cf_JPages_sec (s : State) (t : T) (c : CoSt) (h : Shape s t) (hJ : cf_JP
       rcases cf_pagesResume_failed _ _ _ e he with rfl | rfl
       · exact h1 rfl
       · exact g1 he
-    by_cases ho : (pagesResume (s.trie.size + p.prefixes.length + 2) s p).2 = .yielded
+    by_cases ho : (pagesResume ((s.trie.size + 1) * (p.prefixes.length + 1)) s p).2 = .yielded
     · rw [resume_pages_yielded s p ho]; exact g2 ho
     · rw [resume_pages_stopped s p ho]; trivial
   | finished =>
@@ -695,18 +712,19 @@ theorem cf_JPages_mono (s s' : State) (t t' : T) (c : CoSt) (h : Shape s t) (x :
 /-- **(3) C16, page query, no section ever runs out of fuel**: for every schedule, whatever the other
     generators are (writers included; not even their well-formedness is needed), started from fresh
     generators on an index with the shape invariant, the page query `reqs[i] = queryPages ps` whose prefixes
-    are well formed and pairwise not prefixes of one another never fails, except with the `TraphException` of a
-    prefix that is not in the index (and `StopIteration` if resumed after its end); in particular never
-    with "fuel". (Without the last hypothesis this is false: `cf_pages_fuel_insufficient_*`.) -/
+    are well formed (ANY such list: equal prefixes, prefixes below one another, …) never fails, except with the
+    `TraphException` of a prefix that is not in the index (and `StopIteration` if resumed after its end); in
+    particular never with "fuel". (With the old constant of the model this was false without a hypothesis on the
+    prefixes: `cf_old_pages_fuel_insufficient_*`.) -/
 theorem cf_C16_pages_query_failures {s : State} {t : T} (hs : Shape s t) (reqs : List CoReq) (sched : Sched)
     (i : Nat) (ps : List Bytes) (hreq : reqs[i]? = some (.queryPages ps))
-    (hwf : ∀ pf ∈ ps, lruIter pf ≠ []) (hap : (ps.map lruIter).Pairwise cf_Apart) (e : Err)
+    (hwf : ∀ pf ∈ ps, lruIter pf ≠ []) (e : Err)
     (hm : (i, CoOut.failed e) ∈ (Sys.run (s, reqs.map CoReq.init) sched).2) :
     e = .traph ∨ e = .other "StopIteration" := by
   have hget : (s, reqs.map CoReq.init).2[i]? = some (CoSt.pages { prefixes := ps }) := by
     simp only [List.getElem?_map, hreq, Option.map_some]; rfl
   have := cf_sched_never cf_JPages cf_BadPages cf_JPages_mono cf_JPages_sec sched _ t hs i _ hget
-    (cf_PagesInv.init s t ps hwf hap) _ hm
+    (cf_PagesInv.init s t ps hwf) _ hm
   by_cases h1 : e = .traph
   · exact Or.inl h1
   · by_cases h2 : e = .other "StopIteration"
@@ -715,13 +733,14 @@ theorem cf_C16_pages_query_failures {s : State} {t : T} (hs : Shape s t) (reqs :
 
 theorem cf_C16_pages_query_no_fuel {s : State} {t : T} (hs : Shape s t) (reqs : List CoReq) (sched : Sched)
     (i : Nat) (ps : List Bytes) (hreq : reqs[i]? = some (.queryPages ps))
-    (hwf : ∀ pf ∈ ps, lruIter pf ≠ []) (hap : (ps.map lruIter).Pairwise cf_Apart) :
+    (hwf : ∀ pf ∈ ps, lruIter pf ≠ []) :
     (i, CoOut.failed (.other "fuel")) ∉ (Sys.run (s, reqs.map CoReq.init) sched).2 := fun hm => by
-  rcases cf_C16_pages_query_failures hs reqs sched i ps hreq hwf hap _ hm with h | h
+  rcases cf_C16_pages_query_failures hs reqs sched i ps hreq hwf _ hm with h | h
   · cases h
   · exact absurd h (by decide)
 
-/-! ## the fuel constant of `CoSt.pages` is NOT sufficient when a prefix is a prefix of (or equal to) another -/
+/-! ## why the constant was changed: the OLD fuel constant of `CoSt.pages` was NOT sufficient when a prefix is a
+    prefix of (or equal to) another -/
 
 def cf_b (s : String) : Bytes := s.toList.map (·.toNat)
 
@@ -729,29 +748,35 @@ def cf_b (s : String) : Bytes := s.toList.map (·.toNat)
 def cf_idx (l : String) : State := (State.fresh {} .domain [] []).1.run [.create [cf_b l]]
 
 set_option maxRecDepth 1000000 in
-/-- **finding (model fuel)**: the same prefix twice. The index has 3 nodes (`trie.size = 4`); the first section
-    opens `a|`, pops 3 blocks, opens `a|` again, pops the same 3 blocks, and needs a 9th iteration to return; it is
-    granted `4 + 2 + 2 = 8`. The atomic request answers `[]`. -/
-theorem cf_pages_fuel_insufficient_dup :
+/-- **finding (old model fuel)**: the same prefix twice. The index has 3 nodes (`trie.size = 4`); the first section
+    opens `a|`, pops 3 blocks, opens `a|` again, pops the same 3 blocks, and needs a 9th iteration to return; the old
+    constant granted `4 + 2 + 2 = 8`. The atomic request answers `[]` — and so does the machine with the constant of
+    the model now (`5 * 3 = 15`). -/
+theorem cf_old_pages_fuel_insufficient_dup :
     (cf_idx "a|b|c|").trie.size = 4 ∧
-    (CoSt.resume (cf_idx "a|b|c|") (.pages { prefixes := [cf_b "a|", cf_b "a|"] })).2.2 = .failed (.other "fuel") ∧
+    (pagesResume (cf_oldFuel (cf_idx "a|b|c|") { prefixes := [cf_b "a|", cf_b "a|"] }) (cf_idx "a|b|c|")
+      { prefixes := [cf_b "a|", cf_b "a|"] }).2 = .failed (.other "fuel") ∧
     (pagesResume 9 (cf_idx "a|b|c|") { prefixes := [cf_b "a|", cf_b "a|"] }).2 = .done (.pages []) ∧
+    (CoSt.resume (cf_idx "a|b|c|") (.pages { prefixes := [cf_b "a|", cf_b "a|"] })).2.2 = .done (.pages []) ∧
     (cf_idx "a|b|c|").ask (.pages [cf_b "a|", cf_b "a|"]) = .pages [] := by decide +kernel
 
 set_option maxRecDepth 1000000 in
-/-- **finding (model fuel)**: two different prefixes, one below the other (4 nodes, `trie.size = 5`: 1 + 4 + 1 + 3 + 1
-    = 10 iterations, 9 granted) -/
-theorem cf_pages_fuel_insufficient_nested :
+/-- **finding (old model fuel)**: two different prefixes, one below the other (4 nodes, `trie.size = 5`: 1 + 4 + 1 + 3 + 1
+    = 10 iterations, 9 granted by the old constant; `6 * 3 = 18` now) -/
+theorem cf_old_pages_fuel_insufficient_nested :
     (cf_idx "a|b|c|d|").trie.size = 5 ∧
-    (CoSt.resume (cf_idx "a|b|c|d|") (.pages { prefixes := [cf_b "a|", cf_b "a|b|"] })).2.2 = .failed (.other "fuel") ∧
+    (pagesResume (cf_oldFuel (cf_idx "a|b|c|d|") { prefixes := [cf_b "a|", cf_b "a|b|"] }) (cf_idx "a|b|c|d|")
+      { prefixes := [cf_b "a|", cf_b "a|b|"] }).2 = .failed (.other "fuel") ∧
     (pagesResume 10 (cf_idx "a|b|c|d|") { prefixes := [cf_b "a|", cf_b "a|b|"] }).2 = .done (.pages []) ∧
+    (CoSt.resume (cf_idx "a|b|c|d|") (.pages { prefixes := [cf_b "a|", cf_b "a|b|"] })).2.2 = .done (.pages []) ∧
     (cf_idx "a|b|c|d|").ask (.pages [cf_b "a|", cf_b "a|b|"]) = .pages [] := by decide +kernel
 
+#print axioms cf_old_pagesResume_fuel
 #print axioms cf_pagesResume_fuel
 #print axioms cf_pagesResume_fuel_general
 #print axioms cf_C16_pages_query_failures
 #print axioms cf_C16_pages_query_no_fuel
-#print axioms cf_pages_fuel_insufficient_dup
-#print axioms cf_pages_fuel_insufficient_nested
+#print axioms cf_old_pages_fuel_insufficient_dup
+#print axioms cf_old_pages_fuel_insufficient_nested
 
 end Traph
